@@ -21,7 +21,7 @@ PROPERTIES['C14'] = {
          bounds='N=4 leaves, all 2^128 code arrays subject to sortedness',
          targets=['collider_internal::CreateRadixTree::{operator(),RangeEnd,FindSplit,PrefixLength}']),
     dict(name='e2e_box_n3', harness='c14_collider.cpp', entry='h_e2e_box', defs={'VF_N': 3},
-         unwind={'default': 8}, backends=['minisat','kissat'], timeout=900, tiers=['quick', 'thorough'],
+         unwind={'default': 8}, backends=['minisat','kissat'], timeout=2400, tiers=['quick', 'thorough'],
          claim='Collider(leafBB, leafMorton) followed by Collisions(one Box query): the recorder is called exactly once for leaf i iff the closed-interval overlap test (independent oracle in the harness) holds, never for another index; root box contains every leaf box',
          bounds='N=3 leaves, all finite doubles |x|<=1e100 for every box coordinate (min<=max NOT assumed), all sorted Morton arrays',
          targets=['Collider::Collider', 'Collider::UpdateBoxes', 'collider_internal::BuildInternalBoxes', 'collider_internal::FindCollision', 'Box::Union', 'Box::DoesOverlap(Box)', 'for_each_n(Seq)', 'AtomicAdd']),
@@ -38,7 +38,7 @@ PROPERTIES['C14'] = {
          claim='Collider built on one box set, then UpdateBoxes(new boxes), then a Box query: reports exactly the leaves whose NEW box overlaps (refit leaves no stale ancestor box)',
          bounds='N=4 leaves, all finite doubles for both box sets and the query, all sorted Morton arrays', targets=['Collider::UpdateBoxes', 'collider_internal::BuildInternalBoxes', 'collider_internal::FindCollision']),
     dict(name='e2e_point_n3', harness='c14_collider.cpp', entry='h_e2e_point', defs={'VF_N': 3},
-         unwind={'default': 8}, backends=['minisat','kissat'], timeout=900, tiers=['quick', 'thorough'],
+         unwind={'default': 8}, backends=['minisat','kissat'], timeout=2400, tiers=['quick', 'thorough'],
          claim='same with a vec3 query: recorded iff the point projects into the XY extent of the leaf box (closed)',
          bounds='N=3 leaves, all finite doubles', targets=['collider_internal::FindCollision<vec3 query>', 'Box::DoesOverlap(vec3)']),
   ],
@@ -84,8 +84,8 @@ PROPERTIES['C13'] = {
     _c13('reduce_max', 'h_reduce_max', 'reduce(Par, max, init = identity) == sequential fold for every reduction tree', lens=[3]),
     _c13('transform_reduce', 'h_transform_reduce', 'transform_reduce(Par, plus, 3*x, init = 0) == sequential fold', lens=[3], tiers=['experimental']),
     _c13('count_all', 'h_count_all', 'count_if, all_of (Par) == sequential definition for every reduction tree', tiers=['thorough']),
-    _c13('merge_rec', 'h_merge_rec', 'details::mergeRec (parallel stable merge used by stable_sort(Par, comp)): output is the STABLE merge of two sorted runs (left run first on ties) for every split and every parallel_invoke order', n=3, lens=[2, 3], unwind={'default': 6}, recursion={'mergeRec|mergeSortRec|parallel_invoke': 2}, timeout=1200, mem_gb=16),
-    _c13('sorted_range_join', 'h_sorted_range_join', 'details::SortedRange::join + swapBuffer (reduction step of the radix-sort path behind stable_sort(Par) on integers): two adjacent sorted runs, each in either buffer (inTmp symbolic, stale data in the other buffer), every split: afterwards the buffer named by inTmp holds the sorted merge', n=4, thr=8, lens=[2, 3], unwind={'default': 6}, recursion={'mergeRec|mergeSortRec|parallel_invoke': 1}, timeout=1200, mem_gb=16),
+    _c13('merge_rec', 'h_merge_rec', 'details::mergeRec (parallel stable merge used by stable_sort(Par, comp)): output is the STABLE merge of two sorted runs (left run first on ties) for every split and every parallel_invoke order', n=3, lens=[2, 3], unwind={'default': 6}, recursion={'mergeRec|mergeSortRec|parallel_invoke': 2}, timeout=2400, mem_gb=16),
+    _c13('sorted_range_join', 'h_sorted_range_join', 'details::SortedRange::join + swapBuffer (reduction step of the radix-sort path behind stable_sort(Par) on integers): two adjacent sorted runs, each in either buffer (inTmp symbolic, stale data in the other buffer), every split: afterwards the buffer named by inTmp holds the sorted merge', n=4, thr=8, lens=[2, 3], unwind={'default': 6}, recursion={'mergeRec|mergeSortRec|parallel_invoke': 1}, timeout=2400, mem_gb=16),
     _c13('sorted_range_join_len4', 'h_sorted_range_join', 'details::SortedRange::join + swapBuffer [length = 4]', n=4, thr=8, unwind={'default': 6}, recursion={'mergeRec|mergeSortRec|parallel_invoke': 1}, timeout=1800, mem_gb=16, tiers=['thorough'], defs_extra={'VF_LEN': 4}),
     _c13('radix_sort_u8', 'h_radix_sort', 'stable_sort(Par) on integers = radix_sort / SortedRange (split, operator(), join, swapBuffer, buffer parity inTmp) / LSB_radix_sort / Hist: sorted permutation of the input for every reduce tree over <=2 chunks, split timing and execution order (sequential histogram and std::merge inside: hook threshold 8)', n=3, thr=8, lens=[2, 3],
          unwind={'default': 5, 'Hist|histogram|prefixSum|LSB_radix': 257}, recursion={'mergeRec|mergeSortRec': 2}, defs_extra={'VF_KEY_T': 'unsigned char', 'VF_TBB_MAX_CHUNKS': 2}, timeout=1500, mem_gb=24, tiers=['experimental']),
@@ -192,7 +192,7 @@ PROPERTIES['C02'] = {
     dict(name='k02_tt_f16', harness='c02_kernels.cpp', entry='h_k02_tt', real='f16', defs={'VF_BND': 1024}, backends=['kissat', 'minisat'], timeout=900, unwind={'default': 13}, tiers=['quick', 'thorough'],
          claim='Kernel02<expandP=true,forward=true>: all harvested library assertions + |s02|<=1 + z02 not NaN when s02!=0', bounds='IEEE binary16 arithmetic, |x|<=1024, arbitrary finite normals, all 6 vertex numberings',
          targets=['boolean3.cpp Kernel02::operator(), Shadow01, LoadFaceEdges', 'shared.h Interpolate, Shadows']),
-    dict(name='k11_normal_scale_t', harness='c02_kernels.cpp', entry='h_k11scale_t', real='f16', defs={'VF_BND': 64, 'VF_TIECFG': 1}, backends=['kissat', 'minisat'], timeout=1500, unwind={'default': 13}, tiers=['quick', 'thorough'],
+    dict(name='k11_normal_scale_t', harness='c02_kernels.cpp', entry='h_k11scale_t', real='f16', defs={'VF_BND': 64, 'VF_TIECFG': 1}, backends=['kissat', 'minisat'], timeout=3000, unwind={'default': 13}, tiers=['quick', 'thorough'],
          claim='Kernel11<expandP=true>: multiplying ALL vertex and face normals of both operands by 2 changes neither s11 nor the intersection point, for all operands including exact ties (the symbolic perturbation is a direction: every tie-break is homogeneous in the normals)',
          bounds='5 concrete edge-pair configurations with exact ties (z tie at the crossing, x ties between end points, vertex on edge, sloped tie, and a tie-free control) - the perturbation only acts at ties - and ALL vertex and face normals arbitrary binary16 values |x| <= 64 (the positions, hence the ties, are exact in every format; sums and differences of normals keep their sign in every IEEE format, so counterexamples replay in double)', targets=['boolean3.cpp Kernel11::operator(), Shadow01', 'shared.h Intersect, Interpolate, Shadows, withSign']),
     dict(name='k11_normal_scale_f', harness='c02_kernels.cpp', entry='h_k11scale_f', real='f16', defs={'VF_BND': 64, 'VF_TIECFG': 1}, backends=['kissat', 'minisat'], timeout=1500, unwind={'default': 13}, tiers=['thorough'],
@@ -376,7 +376,7 @@ PROPERTIES['C10'] = {
   'obligations': [
     dict(name='ccw_lattice', harness='c10_ccw.cpp', entry='h_ccw_lattice', defs={'VF_R': 8}, backends=['minisat', 'kissat'], timeout=600, unwind={'default': 4},
          claim='CCW(p0,p1,p2,0) == sign of the integer determinant', bounds='lattice [-8,8]^2, double arithmetic', targets=['utils.h CCW']),
-    dict(name='ccw_antisym', harness='c10_ccw.cpp', entry='h_ccw_antisym', real='f16', backends=['minisat', 'kissat'], timeout=600, unwind={'default': 2},
+    dict(name='ccw_antisym', harness='c10_ccw.cpp', entry='h_ccw_antisym', real='f16', backends=['minisat', 'kissat'], timeout=1800, unwind={'default': 2},
          claim='CCW(p0,p1,p2,tol) == -CCW(p0,p2,p1,tol); repeated point => 0', bounds='IEEE binary16 arithmetic, |x| <= 64, any tol', targets=['utils.h CCW']),
   ],
 }
@@ -518,7 +518,7 @@ PROPERTIES['C19']['obligations'] += [
 ]
 PROPERTIES['C14']['obligations'] += [
     dict(name='e2e_box_inf_n3', harness='c14_collider.cpp', entry='h_e2e_box_inf', defs={'VF_N': 3},
-         unwind={'default': 8}, backends=['minisat', 'kissat'], timeout=1200,
+         unwind={'default': 8}, backends=['minisat', 'kissat'], timeout=2400,
          claim='Collider + Collisions with an UNBOUNDED query box (any coordinate may be +-infinity, as MinGap with an infinite search length, half-space and whole-space queries produce): exactly the leaves the closed-interval test accepts are reported, each once; only an empty box may be skipped',
          bounds='N=3 finite leaf boxes |x|<=1e100 (min<=max not assumed), all sorted Morton arrays, query coordinates any non-NaN double including +-infinity', targets=['collider_internal::FindCollision (early exit for empty boxes)', 'Box::DoesOverlap(Box)', 'Collider::Collider'])
 ]
@@ -556,7 +556,7 @@ PROPERTIES['C18']['obligations'] += [
     for ax in (0, 1, 2)]
 PROPERTIES['C10']['obligations'] += [
     dict(name='isconvex_gate_n%d' % n, harness='c10_convex.cpp', entry='h_isconvex', defs={'VF_LEN': n, 'VF_R': 2}, real='f16', models=['stdlib.h'],
-         unwind={'default': n + 2}, recursion={'default': 2}, backends=['minisat', 'kissat'], timeout=900, object_bits=12,
+         unwind={'default': n + 2}, recursion={'default': 2}, backends=['minisat', 'kissat'], timeout=2400, object_bits=12,
          cdefs=['VF_ALLOC_CLASSES=VF_C(24) VF_C(48) VF_C(96) VF_C(192)'],
          tiers=['quick', 'thorough'] if n == 4 else ['thorough'],
          claim='IsConvex(polygon, eps) == true implies no reflex vertex (exact integer orientation >= 0 at every vertex) and no zero-length edge, for every lattice polygon whose vertices are not all one point (repeated points included): only then is the zig-zag TriangulateConvex fast path admissible',
